@@ -120,3 +120,43 @@ def point_ids(shape):
 def geom(j):
     """exact control polygons of a curve"""
     return [[(p[0], p[1]) for p in s.ctrlpoints] for s in j.segments]
+
+
+def vary_history(rng, S, d, variant=None):
+    """Returns (object, variant name): an object denoting the SAME region as description `d`, but reached through a history of
+    queries and in-place operations (warm caches, moved away and back, scaled and back, complemented in place, refined by split).
+    Every step is exact for rational data.  Stale per-object state shows up as a difference from the freshly built `S`."""
+    from shapepy import SimpleShape
+    variants = ["fresh", "warm", "move-back", "scale-back", "split", "warm-transform-warm"]
+    if d[0] == "S":
+        variants += ["invert-twice", "complement-inverted-in-place"]
+    v = variant or rng.choice(variants)
+    probe = (F(1, 3), F(2, 7))
+
+    def warm(X):
+        float(X); X.box(); probe in X
+        for j in X.jordans:
+            float(j); j.box()
+        for sub in getattr(X, "subshapes", ()):
+            float(sub); sub.box(); probe in sub
+    if v == "fresh":
+        return S, v
+    if v == "warm":
+        warm(S)
+    elif v == "move-back":
+        warm(S); S.move(F(7, 2), -5); warm(S); S.move(-F(7, 2), 5)
+    elif v == "scale-back":
+        warm(S); S.scale(F(3, 2), 2); warm(S); S.scale(F(2, 3), F(1, 2))
+    elif v == "warm-transform-warm":
+        warm(S); S.scale(-2, -2); warm(S); S.move(1, 1); warm(S); S.move(-1, -1); S.scale(-F(1, 2), -F(1, 2))
+    elif v == "split":
+        for j in S.jordans:
+            k = len(j.segments)
+            j.split([rng.randrange(k), rng.randrange(k)], [F(1, 2), F(1, 4)])
+    elif v == "invert-twice":
+        warm(S); S.invert(); warm(S); S.invert()
+    elif v == "complement-inverted-in-place":
+        X = simple(d[1][::-1])
+        warm(X); X.invert()
+        return X, v
+    return S, v
